@@ -1,6 +1,6 @@
 ------------------------------ MODULE GossipKV ------------------------------
 (***************************************************************************)
-(* C04 / C06 - the gossiping memberlist KV (kv/memberlist), one key.       *)
+(* C04 / C06 - the gossiping memberlist KV (kv/memberlist), 1-2 keys.      *)
 (*                                                                         *)
 (* Structured like memberlist_client.go: one action per critical section   *)
 (* the harness can separate (the harness IS the network):                  *)
@@ -47,6 +47,7 @@ EXTENDS Integers, FiniteSets, Sequences, TLC, Json
 CONSTANTS
   N,              \* nodes 1..N
   NI,             \* entry ids 1..NI
+  NK,             \* keys 1..NK sharing a node's two broadcast queues (each key has its own store cell, worker, watchers)
   MaxClock,       \* clock runs 0..MaxClock
   Retention,      \* LeftIngestersTimeout in seconds; 0 = tombstones are never collected
   T,              \* transmissions per queued broadcast (RetransmitMult * ceil(log10(N+1)))
@@ -59,6 +60,7 @@ CONSTANTS
   GateNodes,      \* nodes whose per-key worker can be gated (Receive and Work become separate steps)
   InboxCap,       \* capacity of the per-key worker channel (ProcessedMessagesQueueSize)
   VersionTest,    \* TRUE: Invalidates compares versions (the code); FALSE: negative control
+  KeyTest,        \* TRUE: Invalidates compares keys (the code); FALSE: negative control
   MaxDel,         \* bound on KV.Delete calls; 0 = key deletion not exercised
   ObsoleteTimeout,\* ObsoleteEntriesTimeout in seconds
   ConsumeNet,     \* TRUE: a delivered packet leaves the network unless the adversary pays for a duplicate
@@ -72,6 +74,11 @@ CONSTANTS
 ASSUME HoldNodes \subseteq WatchNodes /\ WatchNodes \subseteq 1..N /\ GateNodes \subseteq 1..N
 
 Node == 1..N
+Key  == 1..NK
+Unit == Node \X Key       \* a key on a node: <<n, k>>
+Nd(u) == u[1]
+Ky(u) == u[2]
+UnitsOf(n) == {<<n, k>> : k \in Key}
 Inst == 1..NI
 LEFT == "LEFT"
 Absent == [ts |-> -1, st |-> "ABSENT"]
@@ -83,26 +90,26 @@ Strip(d) == TLCEval([i \in Inst |-> IF d[i].st = LEFT THEN Absent ELSE d[i]])
 NoLeft(d) == \A i \in Inst : d[i].st # LEFT
 
 (* a message (KeyValuePair): the change, the key's Deleted flag and UpdateTime (-1 = zero time) *)
-Msg(c, d, u) == [chg |-> c, del |-> d, upd |-> u]
-Plain(c) == Msg(c, FALSE, -1)
+Msg(k, c, d, u) == [key |-> k, chg |-> c, del |-> d, upd |-> u]
+Plain(k, c) == Msg(k, c, FALSE, -1)
 
 VARIABLES
   clock,
-  store,     \* store[n] = [val : Desc (tombstones included), ver, del, upd]; ver = 0 <=> key not in the store
-  queueL,    \* queueL[n] : set of [chg, del, upd, ver, left : 1..T]   (localBroadcasts)
-  queueG,    \* queueG[n] : same                                        (gossipBroadcasts)
-  watch,     \* watch[n] = [called, last, armed, held, pending]   the WatchKey watcher
-  pw,        \* pw[n] = [called, last]   an un-gated WatchPrefix watcher
-  gate,      \* gate[n] : the worker of n blocks at its next Decode / Encode
-  wk,        \* wk[n] = [st : idle | dec | enc, m : message held, ver]   the per-key worker
-  inbox,     \* inbox[n] : sequence of messages in the worker channel
+  store,     \* store[u] = [val : Desc (tombstones included), ver, del, upd]; ver = 0 <=> key not in the store of the node
+  queueL,    \* queueL[n] : set of [key, chg, del, upd, ver, left : 1..T]   (localBroadcasts, shared by all keys)
+  queueG,    \* queueG[n] : same                                             (gossipBroadcasts)
+  watch,     \* watch[u] = [called, last, armed, held, pending]   the WatchKey watcher of the key
+  pw,        \* pw[u] = [called, last]   what an un-gated WatchPrefix("") watcher last saw for the key
+  gate,      \* gate[u] : the per-key worker blocks at its next Decode / Encode
+  wk,        \* wk[u] = [st : idle | dec | enc, m : message held, ver]   the per-key worker
+  inbox,     \* inbox[u] : sequence of messages in the worker channel
   sent,      \* packets (messages) taken out of the nodes by GetBroadcasts
   cut,       \* isolated nodes
   ncas, nfault, ndel,
   phase, qidx,
-  inval,     \* ghost: [o, b] pairs - broadcast o was invalidated by b in the last step
-  fwd,       \* ghost: [n, chg, local] - changes produced by the merges of the last step
-  written,   \* <<i, entry>> ever produced by a CAS
+  inval,     \* ghost: broadcast o was invalidated by b in the last step
+  fwd,       \* ghost: [u, chg, local] - changes produced by the merges of the last step
+  written,   \* <<k, i, entry>> ever produced by a CAS
   hist       \* behaviour so far (Record)
 
 nodev == <<store, queueL, queueG, watch, pw>>
@@ -115,10 +122,10 @@ vars  == <<clock, nodev, wrk, net, bud, ctl, inval, fwd, written, hist>>
 (* The exhaustive configurations identify states that differ only in the ghosts inval/fwd and in hist; and, *)
 (* when neither worker gates nor key deletion are exercised, in version numbers: a version is then only     *)
 (* ever compared by Invalidates(b, o) with b the broadcast being queued, whose version is larger than every *)
-(* queued one (VersionCountsChanges), so versions do not influence any other variable.                      *)
-NoVer(q) == {[chg |-> b.chg, left |-> b.left] : b \in q}
+(* queued one of its key (VersionCountsChanges), so versions do not influence any other variable.           *)
+NoVer(q) == {[key |-> b.key, chg |-> b.chg, left |-> b.left] : b \in q}
 view == IF GateNodes = {} /\ MaxDel = 0
-        THEN <<clock, [n \in Node |-> <<store[n].val, store[n].ver > 0, NoVer(queueL[n]), NoVer(queueG[n])>>],
+        THEN <<clock, [u \in Unit |-> <<store[u].val, store[u].ver > 0>>], [n \in Node |-> <<NoVer(queueL[n]), NoVer(queueG[n])>>],
                watch, pw, sent, cut, bud, ctl, written>>
         ELSE <<clock, nodev, wrk, net, bud, ctl, written>>
 
@@ -180,14 +187,16 @@ MV(s, inc, cas, now) ==
          : m \in {IF s.ver = 0 THEN [result |-> inc.chg, change |-> inc.chg] ELSE Merge(s.val, inc.chg, cas, now)} })
 
 ReadOf(s) == Strip(s.val)          \* KV.get: clone + RemoveTombstones(zero time); nil and empty coincide;
-Read(n)   == ReadOf(store[n])      \* the Deleted flag does NOT hide the value (observation O2)
+Read(u)   == ReadOf(store[u])      \* the Deleted flag does NOT hide the value (observation O2)
 
-(* ringBroadcast.Invalidates / TransmitLimitedQueue.QueueBroadcast *)
-Invalidates(b, o) == Ids(o.chg) \subseteq Ids(b.chg) /\ (~VersionTest \/ b.ver >= o.ver)
-Enq(q, b)    == {o \in q : ~Invalidates(b, o)} \cup {b}
-Killed(q, b) == {o \in q : Invalidates(b, o)}
-MsgOf(b) == Msg(b.chg, b.del, b.upd)
-BC(chg, cell) == [chg |-> chg, del |-> cell.del, upd |-> cell.upd, ver |-> cell.ver, left |-> T]
+(* ringBroadcast.Invalidates / TransmitLimitedQueue.QueueBroadcast: same key, content superset, not older *)
+Invalidates(b, o) == /\ (~KeyTest \/ b.key = o.key)
+                     /\ Ids(o.chg) \subseteq Ids(b.chg)
+                     /\ (~VersionTest \/ b.ver >= o.ver)
+(* bs: the broadcasts queued in one step (at most one per key) *)
+QAdd(q, bs)  == {o \in q : \A b \in bs : ~Invalidates(b, o)} \cup bs
+MsgOf(b) == Msg(b.key, b.chg, b.del, b.upd)
+BC(k, chg, cell) == [key |-> k, chg |-> chg, del |-> cell.del, upd |-> cell.upd, ver |-> cell.ver, left |-> T]
 
 (* notifyWatchersSync + the WatchKey loop with its capacity-1 channel *)
 Notify(w, rd) == IF w.held THEN [w EXCEPT !.pending = TRUE]
@@ -195,7 +204,7 @@ Notify(w, rd) == IF w.held THEN [w EXCEPT !.pending = TRUE]
                  ELSE [w EXCEPT !.called = TRUE, !.last = rd]
 W0  == [called |-> FALSE, last |-> Empty, armed |-> FALSE, held |-> FALSE, pending |-> FALSE]
 PW0 == [called |-> FALSE, last |-> Empty]
-WK0 == [st |-> "idle", m |-> Plain(Empty), ver |-> 0]
+WK0 == [st |-> "idle", m |-> Plain(0, Empty), ver |-> 0]
 
 (* the functions handed to CAS *)
 Fn == [op : {"hb", "rm"}, i : Inst, s : {"-"}] \cup [op : {"set"}, i : Inst, s : LiveStates]
@@ -207,30 +216,31 @@ Apply(f, in, now) ==
     [] f.op = "rm"  -> [ok |-> TRUE, d |-> [in EXCEPT ![f.i] = Absent]]
 
 -----------------------------------------------------------------------------
-(* effect of one merge result r on node n when merge, notification and QueueBroadcast happen in one step *)
-After(n, r, local) ==
-  LET b == BC(r.chg, r.st)
-      q == r.bc
-  IN TLCEval([st |-> r.st,
-      w  |-> IF r.changed /\ n \in WatchNodes THEN Notify(watch[n], ReadOf(r.st)) ELSE watch[n],
-      pw |-> IF r.changed THEN [called |-> TRUE, last |-> ReadOf(r.st)] ELSE pw[n],
-      ql |-> IF q /\ local THEN Enq(queueL[n], b) ELSE queueL[n],
-      qg |-> IF q /\ ~local THEN Enq(queueG[n], b) ELSE queueG[n],
-      kill |-> IF ~q THEN {} ELSE {[o |-> o.chg, od |-> o.del, ou |-> o.upd, b |-> r.chg] : o \in Killed(IF local THEN queueL[n] ELSE queueG[n], b)},
-      fwd  |-> IF q THEN {[n |-> n, chg |-> r.chg, local |-> local]} ELSE {}])
+(* effect of one merge result r on unit u when merge, notification and QueueBroadcast happen in one step: *)
+(* new cell, watchers, the broadcast to queue (bs: empty or one element)                                  *)
+After(u, r, local) ==
+  TLCEval([st |-> r.st,
+      w   |-> IF r.changed /\ Nd(u) \in WatchNodes THEN Notify(watch[u], ReadOf(r.st)) ELSE watch[u],
+      pw  |-> IF r.changed THEN [called |-> TRUE, last |-> ReadOf(r.st)] ELSE pw[u],
+      bs  |-> IF r.bc THEN {BC(Ky(u), r.chg, r.st)} ELSE {},
+      fwd |-> IF r.bc THEN {[u |-> u, chg |-> r.chg, local |-> local]} ELSE {}])
+Kills(q, bs) == {[o |-> x[1].chg, ok |-> x[1].key, od |-> x[1].del, ou |-> x[1].upd, b |-> x[2].chg, bk |-> x[2].key] :
+                   x \in {y \in q \X bs : Invalidates(y[2], y[1])}}
 
 Proj(st, ql, qg, w, p, g, k, ib, clk) ==
   [clock |-> clk,
-   nodes |-> [n \in Node |-> [val |-> st[n].val, ver |-> st[n].ver, del |-> st[n].del, upd |-> st[n].upd,
-                               read |-> ReadOf(st[n]),
-                               ql |-> Cardinality(ql[n]), qg |-> Cardinality(qg[n]),
-                               called |-> w[n].called, last |-> w[n].last, held |-> w[n].held, pending |-> w[n].pending,
-                               pcalled |-> p[n].called, plast |-> p[n].last,
-                               gate |-> g[n], wk |-> k[n].st, ib |-> Len(ib[n])]]]
+   nodes |-> [n \in Node |->
+      [ql |-> Cardinality(ql[n]), qg |-> Cardinality(qg[n]),
+       keys |-> [kk \in Key |-> LET u == <<n, kk>> IN
+                   [val |-> st[u].val, ver |-> st[u].ver, del |-> st[u].del, upd |-> st[u].upd, read |-> ReadOf(st[u]),
+                    called |-> w[u].called, last |-> w[u].last, held |-> w[u].held, pending |-> w[u].pending,
+                    pcalled |-> p[u].called, plast |-> p[u].last,
+                    gate |-> g[u], wk |-> k[u].st, ib |-> Len(ib[u])]]]]]
 
-R0 == [a |-> "", n |-> 0, m |-> 0, f |-> [op |-> "-", i |-> 0, s |-> "-"], p |-> Empty, pd |-> FALSE, pu |-> -1, k |-> "-",
+R0 == [a |-> "", n |-> 0, m |-> 0, key |-> 0, f |-> [op |-> "-", i |-> 0, s |-> "-"], p |-> Empty, pd |-> FALSE, pu |-> -1, k |-> "-",
        out |-> {}, res |-> "-", note |-> "-"]
-WithMsg(rec, msg) == [rec EXCEPT !.p = msg.chg, !.pd = msg.del, !.pu = msg.upd]
+WithMsg(rec, msg) == [rec EXCEPT !.key = msg.key, !.p = msg.chg, !.pd = msg.del, !.pu = msg.upd]
+AtUnit(rec, u) == [rec EXCEPT !.n = Nd(u), !.key = Ky(u)]
 
 Log(rec) == hist' = IF Record
                     THEN Append(hist, rec @@ [post |-> Proj(store', queueL', queueG', watch', pw', gate', wk', inbox', clock')])
@@ -242,14 +252,14 @@ NoGhost == GhostStep({}, {})
 -----------------------------------------------------------------------------
 Init ==
   /\ clock = 0
-  /\ store  = [n \in Node |-> C0]
+  /\ store  = [u \in Unit |-> C0]
   /\ queueL = [n \in Node |-> {}]
   /\ queueG = [n \in Node |-> {}]
-  /\ watch  = [n \in Node |-> W0]
-  /\ pw     = [n \in Node |-> PW0]
-  /\ gate   = [n \in Node |-> FALSE]
-  /\ wk     = [n \in Node |-> WK0]
-  /\ inbox  = [n \in Node |-> <<>>]
+  /\ watch  = [u \in Unit |-> W0]
+  /\ pw     = [u \in Unit |-> PW0]
+  /\ gate   = [u \in Unit |-> FALSE]
+  /\ wk     = [u \in Unit |-> WK0]
+  /\ inbox  = [u \in Unit |-> <<>>]
   /\ sent = {}
   /\ cut = {}
   /\ ncas = 0 /\ nfault = 0 /\ ndel = 0
@@ -267,34 +277,35 @@ Tick ==
 (* Workload proviso (the one of C03): an entry never gets two different live contents with the same  *)
 (* timestamp - in dskit an entry is written by its own lifecycler only, and a second write within the *)
 (* same second is "no change".  Removals are exempt (the tombstone wins ties).                        *)
-OneContentPerSecond(chg) ==
+OneContentPerSecond(k, chg) ==
   \A i \in Ids(chg) : \A w \in written :
-     (w[1] = i /\ w[2].ts = chg[i].ts /\ w[2].st # LEFT /\ chg[i].st # LEFT) => w[2] = chg[i]
+     (w[1] = k /\ w[2] = i /\ w[3].ts = chg[i].ts /\ w[3].st # LEFT /\ chg[i].st # LEFT) => w[3] = chg[i]
 
-CasN(n, f, note) ==
+CasN(u, f, note) ==
   /\ ncas < MaxCas
   /\ ncas' = ncas + 1
   /\ UNCHANGED <<nfault, ndel>>
-  /\ \E ap \in {Apply(f, Read(n), clock)} :
-     \E r \in {MV(store[n], Plain(ap.d), store[n].ver > 0, clock)} :
-     \E x \in {After(n, r, TRUE)} :
+  /\ \E ap \in {Apply(f, Read(u), clock)} :
+     \E r \in {MV(store[u], Plain(Ky(u), ap.d), store[u].ver > 0, clock)} :
+     \E x \in {After(u, r, TRUE)} :
      LET res == IF ~ap.ok THEN "nil" ELSE IF r.changed THEN "ok" ELSE "nochange"
-     IN /\ OneContentPerSecond(r.chg)
+         n   == Nd(u)
+     IN /\ OneContentPerSecond(Ky(u), r.chg)
         /\ IF ap.ok /\ r.changed
-           THEN /\ store'  = [store  EXCEPT ![n] = x.st]
-                /\ watch'  = [watch  EXCEPT ![n] = x.w]
-                /\ pw'     = [pw     EXCEPT ![n] = x.pw]
-                /\ queueL' = [queueL EXCEPT ![n] = x.ql]
+           THEN /\ store'  = [store  EXCEPT ![u] = x.st]
+                /\ watch'  = [watch  EXCEPT ![u] = x.w]
+                /\ pw'     = [pw     EXCEPT ![u] = x.pw]
+                /\ queueL' = [queueL EXCEPT ![n] = QAdd(queueL[n], x.bs)]
                 /\ UNCHANGED queueG
-                /\ GhostStep(x.kill, x.fwd)
-                /\ written' = written \cup {<<i, r.chg[i]>> : i \in Ids(r.chg)}
+                /\ GhostStep(Kills(queueL[n], x.bs), x.fwd)
+                /\ written' = written \cup {<<Ky(u), i, r.chg[i]>> : i \in Ids(r.chg)}
                 /\ UNCHANGED <<clock, wrk, net, ctl>>
-                /\ Log(WithMsg([R0 EXCEPT !.a = "Cas", !.n = n, !.f = f, !.res = res, !.note = note], MsgOf(BC(r.chg, r.st))))
+                /\ Log(WithMsg([R0 EXCEPT !.a = "Cas", !.n = n, !.f = f, !.res = res, !.note = note], MsgOf(BC(Ky(u), r.chg, r.st))))
            ELSE \* f returned nil, or Merge saw no change: CAS sleeps 1 s and retries; the caller gives up
                 /\ UNCHANGED <<clock, nodev, wrk, net, ctl, written>>
                 /\ NoGhost
-                /\ Log([R0 EXCEPT !.a = "Cas", !.n = n, !.f = f, !.res = res, !.note = note])
-Cas(n, f) == CasN(n, f, "-")
+                /\ Log(AtUnit([R0 EXCEPT !.a = "Cas", !.f = f, !.res = res, !.note = note], u))
+Cas(u, f) == CasN(u, f, "-")
 
 Dec(q) == {[b EXCEPT !.left = b.left - 1] : b \in {x \in q : x.left > 1}}
 
@@ -308,9 +319,24 @@ Gossip(n) ==
        /\ NoGhost
        /\ Log([R0 EXCEPT !.a = "Gossip", !.n = n, !.out = out, !.res = IF n \in cut THEN "lost" ELSE "kept"])
 
-(* what the worker of n does after finishing an update: the gate is closed whenever a worker was held *)
-NextItem(n) == IF inbox[n] = <<>> THEN [wk |-> WK0, ib |-> <<>>]
-               ELSE [wk |-> [st |-> "dec", m |-> Head(inbox[n]), ver |-> 0], ib |-> Tail(inbox[n])]
+(* what the worker of u does after finishing an update: the gate is closed whenever a worker was held *)
+NextItem(u) == IF inbox[u] = <<>> THEN [wk |-> WK0, ib |-> <<>>]
+               ELSE [wk |-> [st |-> "dec", m |-> Head(inbox[u]), ver |-> 0], ib |-> Tail(inbox[u])]
+
+(* NotifyMsg of message m for unit u while its worker is gated: taken by the worker / buffered / dropped *)
+ReceiveGated(u, m, rec) ==
+  IF wk[u].st = "idle"
+  THEN \* the worker takes the update out of its channel and blocks in Decode
+       /\ wk' = [wk EXCEPT ![u] = [st |-> "dec", m |-> m, ver |-> 0]]
+       /\ UNCHANGED inbox
+       /\ Log([rec EXCEPT !.res = "taken"])
+  ELSE IF Len(inbox[u]) < InboxCap
+       THEN /\ inbox' = [inbox EXCEPT ![u] = Append(inbox[u], m)]
+            /\ UNCHANGED wk
+            /\ Log([rec EXCEPT !.res = "buffered"])
+       ELSE \* "notify queue full, dropping message"
+            /\ UNCHANGED <<wk, inbox>>
+            /\ Log([rec EXCEPT !.res = "dropped"])
 
 Deliver(p, n, keep) ==
   /\ p \in sent
@@ -320,118 +346,103 @@ Deliver(p, n, keep) ==
                     ELSE nfault' = nfault /\ sent' = sent \ {p}
        ELSE ~keep /\ nfault' = nfault /\ sent' = sent
   /\ UNCHANGED <<clock, queueL, cut, ncas, ndel, ctl, written, gate>>
-  /\ IF wk[n].st = "idle" /\ ~gate[n]
+  /\ LET u == <<n, p.key>> IN
+     IF wk[u].st = "idle" /\ ~gate[u]
      THEN \* NotifyMsg and the complete run of the per-key worker
-          \E r \in {MV(store[n], p, FALSE, clock)} :
-          \E x \in {After(n, r, FALSE)} :
-             /\ store'  = [store  EXCEPT ![n] = x.st]
-             /\ watch'  = [watch  EXCEPT ![n] = x.w]
-             /\ pw'     = [pw     EXCEPT ![n] = x.pw]
-             /\ queueG' = [queueG EXCEPT ![n] = x.qg]
+          \E r \in {MV(store[u], p, FALSE, clock)} :
+          \E x \in {After(u, r, FALSE)} :
+             /\ store'  = [store  EXCEPT ![u] = x.st]
+             /\ watch'  = [watch  EXCEPT ![u] = x.w]
+             /\ pw'     = [pw     EXCEPT ![u] = x.pw]
+             /\ queueG' = [queueG EXCEPT ![n] = QAdd(queueG[n], x.bs)]
              /\ UNCHANGED <<wk, inbox>>
-             /\ GhostStep(x.kill, x.fwd)
+             /\ GhostStep(Kills(queueG[n], x.bs), x.fwd)
              /\ Log(WithMsg([R0 EXCEPT !.a = "Deliver", !.n = n, !.res = IF r.changed THEN "ok" ELSE "nochange",
                                        !.note = r.silent], p))
      ELSE /\ UNCHANGED <<store, watch, pw, queueG>>
           /\ NoGhost
-          /\ IF wk[n].st = "idle"
-             THEN \* the worker takes the update out of its channel and blocks in Decode
-                  /\ wk' = [wk EXCEPT ![n] = [st |-> "dec", m |-> p, ver |-> 0]]
-                  /\ UNCHANGED inbox
-                  /\ Log(WithMsg([R0 EXCEPT !.a = "Deliver", !.n = n, !.res = "taken"], p))
-             ELSE IF Len(inbox[n]) < InboxCap
-                  THEN /\ inbox' = [inbox EXCEPT ![n] = Append(inbox[n], p)]
-                       /\ UNCHANGED wk
-                       /\ Log(WithMsg([R0 EXCEPT !.a = "Deliver", !.n = n, !.res = "buffered"], p))
-                  ELSE \* "notify queue full, dropping message"
-                       /\ UNCHANGED <<wk, inbox>>
-                       /\ Log(WithMsg([R0 EXCEPT !.a = "Deliver", !.n = n, !.res = "dropped"], p))
+          /\ ReceiveGated(u, p, WithMsg([R0 EXCEPT !.a = "Deliver", !.n = n], p))
 
 (* one step of a gated worker: processValueUpdate up to its next Decode / Encode *)
-WorkBody(n) ==
-  /\ wk[n].st # "idle"
+WorkBody(u) ==
+  /\ wk[u].st # "idle"
   /\ UNCHANGED <<clock, queueL, net, bud, written, gate>>
-  /\ IF wk[n].st = "dec"
+  /\ LET n == Nd(u) IN
+     IF wk[u].st = "dec"
      THEN \* mergeBytesValueForKey + notifyWatchers; broadcastNewValue then blocks in Encode
-          \E r \in {MV(store[n], wk[n].m, FALSE, clock)} :
-          \E x \in {After(n, r, FALSE)} :
-          \E nx \in {NextItem(n)} :
-             /\ store' = [store EXCEPT ![n] = x.st]
-             /\ watch' = [watch EXCEPT ![n] = x.w]
-             /\ pw'    = [pw    EXCEPT ![n] = x.pw]
+          \E r \in {MV(store[u], wk[u].m, FALSE, clock)} :
+          \E x \in {After(u, r, FALSE)} :
+          \E nx \in {NextItem(u)} :
+             /\ store' = [store EXCEPT ![u] = x.st]
+             /\ watch' = [watch EXCEPT ![u] = x.w]
+             /\ pw'    = [pw    EXCEPT ![u] = x.pw]
              /\ UNCHANGED queueG
-             /\ IF r.bc THEN /\ wk' = [wk EXCEPT ![n] = [st |-> "enc", m |-> MsgOf(BC(r.chg, r.st)), ver |-> r.st.ver]]
+             /\ IF r.bc THEN /\ wk' = [wk EXCEPT ![u] = [st |-> "enc", m |-> MsgOf(BC(Ky(u), r.chg, r.st)), ver |-> r.st.ver]]
                              /\ UNCHANGED inbox
-                        ELSE /\ wk' = [wk EXCEPT ![n] = nx.wk]
-                             /\ inbox' = [inbox EXCEPT ![n] = nx.ib]
+                        ELSE /\ wk' = [wk EXCEPT ![u] = nx.wk]
+                             /\ inbox' = [inbox EXCEPT ![u] = nx.ib]
              /\ GhostStep({}, x.fwd)
-             /\ Log(WithMsg([R0 EXCEPT !.a = "Work", !.n = n, !.res = IF r.changed THEN "merged" ELSE "nochange", !.note = r.silent], wk[n].m))
+             /\ Log(AtUnit(WithMsg([R0 EXCEPT !.a = "Work", !.res = IF r.changed THEN "merged" ELSE "nochange", !.note = r.silent], wk[u].m), u))
      ELSE \* QueueBroadcast(gossipBroadcasts) of the change of an earlier merge - possibly after newer ones
-          \E b \in {[chg |-> wk[n].m.chg, del |-> wk[n].m.del, upd |-> wk[n].m.upd, ver |-> wk[n].ver, left |-> T]} :
-          \E nx \in {NextItem(n)} :
-             /\ queueG' = [queueG EXCEPT ![n] = Enq(queueG[n], b)]
-             /\ wk' = [wk EXCEPT ![n] = nx.wk]
-             /\ inbox' = [inbox EXCEPT ![n] = nx.ib]
+          \E b \in {[key |-> Ky(u), chg |-> wk[u].m.chg, del |-> wk[u].m.del, upd |-> wk[u].m.upd, ver |-> wk[u].ver, left |-> T]} :
+          \E nx \in {NextItem(u)} :
+             /\ queueG' = [queueG EXCEPT ![n] = QAdd(queueG[n], {b})]
+             /\ wk' = [wk EXCEPT ![u] = nx.wk]
+             /\ inbox' = [inbox EXCEPT ![u] = nx.ib]
              /\ UNCHANGED <<store, watch, pw>>
-             /\ GhostStep({[o |-> o.chg, od |-> o.del, ou |-> o.upd, b |-> b.chg] : o \in Killed(queueG[n], b)}, {})
-             /\ Log(WithMsg([R0 EXCEPT !.a = "Work", !.n = n, !.res = "queued"], wk[n].m))
+             /\ GhostStep(Kills(queueG[n], {b}), {})
+             /\ Log(AtUnit(WithMsg([R0 EXCEPT !.a = "Work", !.res = "queued"], wk[u].m), u))
+Work(u) == WorkBody(u) /\ UNCHANGED ctl
 
-Work(n) == WorkBody(n) /\ UNCHANGED ctl
-
-GateClose(n) ==
-  /\ n \in GateNodes /\ ~gate[n]
-  /\ gate' = [gate EXCEPT ![n] = TRUE]
+GateClose(u) ==
+  /\ Nd(u) \in GateNodes /\ ~gate[u]
+  /\ gate' = [gate EXCEPT ![u] = TRUE]
   /\ UNCHANGED <<clock, nodev, wk, inbox, net, bud, ctl, written>>
   /\ NoGhost
-  /\ Log([R0 EXCEPT !.a = "GateClose", !.n = n])
+  /\ Log(AtUnit([R0 EXCEPT !.a = "GateClose"], u))
 
-GateOpen(n) ==
-  /\ gate[n] /\ wk[n].st = "idle"
-  /\ gate' = [gate EXCEPT ![n] = FALSE]
+GateOpen(u) ==
+  /\ gate[u] /\ wk[u].st = "idle"
+  /\ gate' = [gate EXCEPT ![u] = FALSE]
   /\ UNCHANGED <<clock, nodev, wk, inbox, net, bud, ctl, written>>
   /\ NoGhost
-  /\ Log([R0 EXCEPT !.a = "GateOpen", !.n = n])
+  /\ Log(AtUnit([R0 EXCEPT !.a = "GateOpen"], u))
 
 (* Malformed packets.  truncated / badcodec / emptykey are rejected by NotifyMsg itself.  badvalue has an intact *)
 (* envelope (key, known codec) around value bytes the codec cannot decode: it travels through the worker channel *)
 (* like any update and fails in the worker's Decode - with a closed gate it occupies the worker / a channel slot. *)
 GarbageKinds == {"truncated", "badcodec", "emptykey", "badvalue"}
-Undecodable == Msg(Empty, FALSE, -2)
+Undecodable(k) == Msg(k, Empty, FALSE, -2)
 DeliverGarbage(p, n, k) ==
   /\ AllowGarbage /\ nfault < MaxFaults
   /\ p \in sent /\ n \notin cut
   /\ nfault' = nfault + 1
   /\ UNCHANGED <<clock, nodev, gate, net, ncas, ndel, ctl, written>>
   /\ NoGhost
-  /\ IF k # "badvalue" \/ (wk[n].st = "idle" /\ ~gate[n])
+  /\ LET u == <<n, p.key>> IN
+     IF k # "badvalue" \/ (wk[u].st = "idle" /\ ~gate[u])
      THEN /\ UNCHANGED <<wk, inbox>>
           /\ Log(WithMsg([R0 EXCEPT !.a = "Garbage", !.n = n, !.k = k], p))
-     ELSE IF wk[n].st = "idle"
-          THEN /\ wk' = [wk EXCEPT ![n] = [st |-> "dec", m |-> Undecodable, ver |-> 0]]
-               /\ UNCHANGED inbox
-               /\ Log(WithMsg([R0 EXCEPT !.a = "Garbage", !.n = n, !.k = k, !.res = "taken"], p))
-          ELSE IF Len(inbox[n]) < InboxCap
-               THEN /\ inbox' = [inbox EXCEPT ![n] = Append(inbox[n], Undecodable)]
-                    /\ UNCHANGED wk
-                    /\ Log(WithMsg([R0 EXCEPT !.a = "Garbage", !.n = n, !.k = k, !.res = "buffered"], p))
-               ELSE /\ UNCHANGED <<wk, inbox>>
-                    /\ Log(WithMsg([R0 EXCEPT !.a = "Garbage", !.n = n, !.k = k, !.res = "dropped"], p))
+     ELSE ReceiveGated(u, Undecodable(p.key), WithMsg([R0 EXCEPT !.a = "Garbage", !.n = n, !.k = k], p))
 
-(* memberlist push/pull: both sides take LocalState first, then both merge (MergeRemoteState is synchronous) *)
-LocalStateOf(n) == Msg(store[n].val, store[n].del, store[n].upd)
+(* memberlist push/pull: both sides take LocalState (all keys) first, then both merge (MergeRemoteState is synchronous) *)
+LocalStateOf(u) == IF store[u].ver = 0 THEN Plain(Ky(u), Empty) ELSE Msg(Ky(u), store[u].val, store[u].del, store[u].upd)
+Worst(S) == IF "silentgc" \in S THEN "silentgc" ELSE IF "quietgc" \in S THEN "quietgc" ELSE "-"
 PPStep(a, b, junk, name) ==
   /\ UNCHANGED <<clock, queueL, wrk, net, ncas, ndel, written>>
-  /\ \E ra \in {IF store[b].ver = 0 THEN MV(store[a], Plain(Empty), FALSE, clock) ELSE MV(store[a], LocalStateOf(b), FALSE, clock)} :
-     \E rb \in {IF store[a].ver = 0 THEN MV(store[b], Plain(Empty), FALSE, clock) ELSE MV(store[b], LocalStateOf(a), FALSE, clock)} :
-     \E xa \in {After(a, ra, FALSE)} :
-     \E xb \in {After(b, rb, FALSE)} :
-        /\ store'  = [store  EXCEPT ![a] = xa.st, ![b] = xb.st]
-        /\ watch'  = [watch  EXCEPT ![a] = xa.w,  ![b] = xb.w]
-        /\ pw'     = [pw     EXCEPT ![a] = xa.pw, ![b] = xb.pw]
-        /\ queueG' = [queueG EXCEPT ![a] = xa.qg, ![b] = xb.qg]
-        /\ GhostStep(xa.kill \cup xb.kill, xa.fwd \cup xb.fwd)
+  /\ \E ra \in {TLCEval([k \in Key |-> MV(store[<<a, k>>], LocalStateOf(<<b, k>>), FALSE, clock)])} :
+     \E rb \in {TLCEval([k \in Key |-> MV(store[<<b, k>>], LocalStateOf(<<a, k>>), FALSE, clock)])} :
+     \E xa \in {TLCEval([k \in Key |-> After(<<a, k>>, ra[k], FALSE)])} :
+     \E xb \in {TLCEval([k \in Key |-> After(<<b, k>>, rb[k], FALSE)])} :
+     \E ba \in {UNION {xa[k].bs : k \in Key}} :
+     \E bb \in {UNION {xb[k].bs : k \in Key}} :
+        /\ store'  = TLCEval([u \in Unit |-> IF Nd(u) = a THEN xa[Ky(u)].st ELSE IF Nd(u) = b THEN xb[Ky(u)].st ELSE store[u]])
+        /\ watch'  = TLCEval([u \in Unit |-> IF Nd(u) = a THEN xa[Ky(u)].w  ELSE IF Nd(u) = b THEN xb[Ky(u)].w  ELSE watch[u]])
+        /\ pw'     = TLCEval([u \in Unit |-> IF Nd(u) = a THEN xa[Ky(u)].pw ELSE IF Nd(u) = b THEN xb[Ky(u)].pw ELSE pw[u]])
+        /\ queueG' = [queueG EXCEPT ![a] = QAdd(queueG[a], ba), ![b] = QAdd(queueG[b], bb)]
+        /\ GhostStep(Kills(queueG[a], ba) \cup Kills(queueG[b], bb), UNION {xa[k].fwd \cup xb[k].fwd : k \in Key})
         /\ Log([R0 EXCEPT !.a = name, !.n = a, !.m = b, !.k = IF junk THEN "junk" ELSE "-",
-                          !.note = IF "silentgc" \in {ra.silent, rb.silent} THEN "silentgc" ELSE IF "quietgc" \in {ra.silent, rb.silent} THEN "quietgc" ELSE "-"])
+                          !.note = Worst({ra[k].silent : k \in Key} \cup {rb[k].silent : k \in Key})])
 
 PushPull(a, b, junk) ==
   /\ a < b /\ a \notin cut /\ b \notin cut
@@ -440,50 +451,52 @@ PushPull(a, b, junk) ==
   /\ UNCHANGED ctl
 
 (* KV.Delete: marks the key deleted (key-level tombstone stamped now), notifies, gossips the whole value *)
-DeleteKey(n) ==
+DeleteKey(u) ==
   /\ ndel < MaxDel
   /\ ndel' = ndel + 1
   /\ UNCHANGED <<clock, queueL, wrk, net, ncas, nfault, ctl, written>>
-  /\ IF store[n].ver = 0 \/ store[n].del
+  /\ LET n == Nd(u) IN
+     IF store[u].ver = 0 \/ store[u].del
      THEN /\ UNCHANGED <<store, watch, pw, queueG>>
           /\ NoGhost
-          /\ Log([R0 EXCEPT !.a = "Delete", !.n = n, !.res = "noop"])
-     ELSE \E r \in {MV(store[n], Msg(store[n].val, TRUE, clock), FALSE, clock)} :
-          \E x \in {After(n, r, FALSE)} :
-             /\ store'  = [store  EXCEPT ![n] = x.st]
-             /\ watch'  = [watch  EXCEPT ![n] = x.w]
-             /\ pw'     = [pw     EXCEPT ![n] = x.pw]
-             /\ queueG' = [queueG EXCEPT ![n] = x.qg]
-             /\ GhostStep(x.kill, {})
-             /\ Log([R0 EXCEPT !.a = "Delete", !.n = n, !.res = "ok"])
+          /\ Log(AtUnit([R0 EXCEPT !.a = "Delete", !.res = "noop"], u))
+     ELSE \E r \in {MV(store[u], Msg(Ky(u), store[u].val, TRUE, clock), FALSE, clock)} :
+          \E x \in {After(u, r, FALSE)} :
+             /\ store'  = [store  EXCEPT ![u] = x.st]
+             /\ watch'  = [watch  EXCEPT ![u] = x.w]
+             /\ pw'     = [pw     EXCEPT ![u] = x.pw]
+             /\ queueG' = [queueG EXCEPT ![n] = QAdd(queueG[n], x.bs)]
+             /\ GhostStep(Kills(queueG[n], x.bs), {})
+             /\ Log(AtUnit([R0 EXCEPT !.a = "Delete", !.res = "ok"], u))
 
-(* cleanupObsoleteEntries: the key leaves the store once its deletion is older than the timeout; watchers *)
-(* are not told (observation O3).  Only modelled while the worker of n is idle.                           *)
+(* cleanupObsoleteEntries on node n (all its keys): a key leaves the store once its deletion is older than the *)
+(* timeout; watchers are not told (observation O3).  It may be called at any time (nothing is removed unless    *)
+(* obsolete); only modelled while the workers of n are idle.                                                    *)
 Obsolete(s, now) == s.ver # 0 /\ s.del /\ now - s.upd > ObsoleteTimeout
 Cleanup(n) ==
   /\ MaxDel > 0
-  /\ wk[n].st = "idle"
-  /\ store' = [store EXCEPT ![n] = IF Obsolete(store[n], clock) THEN C0 ELSE store[n]]
+  /\ \A u \in UnitsOf(n) : wk[u].st = "idle"
+  /\ store' = TLCEval([u \in Unit |-> IF Nd(u) = n /\ Obsolete(store[u], clock) THEN C0 ELSE store[u]])
   /\ UNCHANGED <<clock, queueL, queueG, watch, pw, wrk, net, bud, ctl, written>>
   /\ NoGhost
-  /\ Log([R0 EXCEPT !.a = "Cleanup", !.n = n, !.res = IF Obsolete(store[n], clock) THEN "removed" ELSE "kept"])
+  /\ Log([R0 EXCEPT !.a = "Cleanup", !.n = n, !.res = IF \E u \in UnitsOf(n) : Obsolete(store[u], clock) THEN "removed" ELSE "kept"])
 
-WatcherArm(n) ==
-  /\ n \in HoldNodes /\ ~watch[n].held /\ ~watch[n].armed
-  /\ watch' = [watch EXCEPT ![n].armed = TRUE]
+WatcherArm(u) ==
+  /\ Nd(u) \in HoldNodes /\ ~watch[u].held /\ ~watch[u].armed
+  /\ watch' = [watch EXCEPT ![u].armed = TRUE]
   /\ UNCHANGED <<clock, store, queueL, queueG, pw, wrk, net, bud, ctl, written>>
   /\ NoGhost
-  /\ Log([R0 EXCEPT !.a = "Arm", !.n = n])
+  /\ Log(AtUnit([R0 EXCEPT !.a = "Arm"], u))
 
-Released(n) == IF watch[n].pending
-               THEN [watch[n] EXCEPT !.held = FALSE, !.pending = FALSE, !.last = Read(n)]
-               ELSE [watch[n] EXCEPT !.held = FALSE]
-WatcherRelease(n) ==
-  /\ watch[n].held
-  /\ watch' = [watch EXCEPT ![n] = Released(n)]
+Released(u) == IF watch[u].pending
+               THEN [watch[u] EXCEPT !.held = FALSE, !.pending = FALSE, !.last = Read(u)]
+               ELSE [watch[u] EXCEPT !.held = FALSE]
+WatcherRelease(u) ==
+  /\ watch[u].held
+  /\ watch' = [watch EXCEPT ![u] = Released(u)]
   /\ UNCHANGED <<clock, store, queueL, queueG, pw, wrk, net, bud, ctl, written>>
   /\ NoGhost
-  /\ Log([R0 EXCEPT !.a = "Release", !.n = n])
+  /\ Log(AtUnit([R0 EXCEPT !.a = "Release"], u))
 
 Partition(S) ==
   /\ AllowPartition /\ nfault < MaxFaults /\ cut = {} /\ S # {} /\ S # Node
@@ -499,17 +512,18 @@ Heal ==
   /\ NoGhost
   /\ Log([R0 EXCEPT !.a = "Heal"])
 
+Reset(f, n, v) == TLCEval([u \in Unit |-> IF Nd(u) = n THEN v ELSE f[u]])
 Restart(n) ==
   /\ AllowRestart /\ nfault < MaxFaults
   /\ nfault' = nfault + 1
-  /\ store'  = [store  EXCEPT ![n] = C0]
+  /\ store'  = Reset(store, n, C0)
   /\ queueL' = [queueL EXCEPT ![n] = {}]
   /\ queueG' = [queueG EXCEPT ![n] = {}]
-  /\ watch'  = [watch  EXCEPT ![n] = W0]
-  /\ pw'     = [pw     EXCEPT ![n] = PW0]
-  /\ gate'   = [gate   EXCEPT ![n] = FALSE]
-  /\ wk'     = [wk     EXCEPT ![n] = WK0]
-  /\ inbox'  = [inbox  EXCEPT ![n] = <<>>]
+  /\ watch'  = Reset(watch, n, W0)
+  /\ pw'     = Reset(pw, n, PW0)
+  /\ gate'   = Reset(gate, n, FALSE)
+  /\ wk'     = Reset(wk, n, WK0)
+  /\ inbox'  = Reset(inbox, n, <<>>)
   /\ UNCHANGED <<clock, net, ncas, ndel, ctl, written>>
   /\ NoGhost
   /\ Log([R0 EXCEPT !.a = "Restart", !.n = n])
@@ -519,15 +533,16 @@ Restart(n) ==
 (* all-pairs push/pull, release of every watcher.                                                          *)
 AllPairs == [k \in 1..(N * N) |-> <<((k - 1) \div N) + 1, ((k - 1) % N) + 1>>]
 PairSeq  == SelectSeq(AllPairs, LAMBDA pr : pr[1] < pr[2])
+UnitSeq  == [j \in 1..(N * NK) |-> <<((j - 1) \div NK) + 1, ((j - 1) % NK) + 1>>]
 RECURSIVE Rep(_, _)
 Rep(s, k) == IF k = 0 THEN <<>> ELSE s \o Rep(s, k - 1)
-GateSeq  == SelectSeq([n \in 1..N |-> n], LAMBDA n : n \in GateNodes)
-DrainOne(n) == Rep(<<<<"work", n, 0>>>>, 2 * (InboxCap + 1)) \o <<<<"open", n, 0>>>>
+GateSeq  == SelectSeq(UnitSeq, LAMBDA u : u[1] \in GateNodes)
+DrainOne(u) == Rep(<<<<"work", u[1], u[2]>>>>, 2 * (InboxCap + 1)) \o <<<<"open", u[1], u[2]>>>>
 RECURSIVE DrainAll(_)
 DrainAll(s) == IF s = <<>> THEN <<>> ELSE DrainOne(Head(s)) \o DrainAll(Tail(s))
 QPlan == DrainAll(GateSeq) \o <<<<"heal", 0, 0>>>>
          \o Rep([k \in 1..Len(PairSeq) |-> <<"pp", PairSeq[k][1], PairSeq[k][2]>>], QRounds)
-         \o [n \in 1..N |-> <<"rel", n, 0>>]
+         \o [j \in 1..Len(UnitSeq) |-> <<"rel", UnitSeq[j][1], UnitSeq[j][2]>>]
 
 StartQuiesce ==
   /\ Quiesce /\ phase = "run" /\ Len(hist) >= RunDepth
@@ -541,15 +556,17 @@ QStep ==
        THEN /\ phase' = "done"
             /\ UNCHANGED <<clock, nodev, wrk, net, bud, qidx, written, hist>>
             /\ NoGhost
-       ELSE LET s == QPlan[qidx] IN
+       ELSE LET s == QPlan[qidx]
+                u == <<s[2], s[3]>>
+            IN
             /\ qidx' = qidx + 1
             /\ phase' = phase
-            /\ CASE s[1] = "work" /\ wk[s[2]].st # "idle" -> WorkBody(s[2])
-                 [] s[1] = "open" /\ gate[s[2]] /\ wk[s[2]].st = "idle" ->
-                      /\ gate' = [gate EXCEPT ![s[2]] = FALSE]
+            /\ CASE s[1] = "work" /\ wk[u].st # "idle" -> WorkBody(u)
+                 [] s[1] = "open" /\ gate[u] /\ wk[u].st = "idle" ->
+                      /\ gate' = [gate EXCEPT ![u] = FALSE]
                       /\ UNCHANGED <<clock, nodev, wk, inbox, net, bud, written>>
                       /\ NoGhost
-                      /\ Log([R0 EXCEPT !.a = "GateOpen", !.n = s[2]])
+                      /\ Log(AtUnit([R0 EXCEPT !.a = "GateOpen"], u))
                  [] s[1] = "heal" /\ cut # {} ->
                       /\ cut' = {}
                       /\ UNCHANGED <<clock, nodev, wrk, sent, bud, written>>
@@ -558,11 +575,11 @@ QStep ==
                  [] s[1] = "pp" /\ cut = {} ->
                       /\ PPStep(s[2], s[3], FALSE, "PushPull")
                       /\ UNCHANGED nfault
-                 [] s[1] = "rel" /\ watch[s[2]].held ->
-                      /\ watch' = [watch EXCEPT ![s[2]] = Released(s[2])]
+                 [] s[1] = "rel" /\ watch[u].held ->
+                      /\ watch' = [watch EXCEPT ![u] = Released(u)]
                       /\ UNCHANGED <<clock, store, queueL, queueG, pw, wrk, net, bud, written>>
                       /\ NoGhost
-                      /\ Log([R0 EXCEPT !.a = "Release", !.n = s[2]])
+                      /\ Log(AtUnit([R0 EXCEPT !.a = "Release"], u))
                  [] OTHER ->
                       /\ UNCHANGED <<clock, nodev, wrk, net, bud, written, hist>>
                       /\ NoGhost
@@ -570,18 +587,18 @@ QStep ==
 RunG == phase = "run" /\ (~Quiesce \/ Len(hist) < RunDepth)
 (* one named disjunct per action so that TLC's coverage report lists every action separately *)
 ATick      == RunG /\ Tick
-ACas       == RunG /\ \E n \in Node, f \in Fn : Cas(n, f)
+ACas       == RunG /\ \E u \in Unit, f \in Fn : Cas(u, f)
 AGossip    == RunG /\ \E n \in Node : Gossip(n)
 ADeliver   == RunG /\ \E p \in sent, n \in Node, keep \in BOOLEAN : Deliver(p, n, keep)
-AWork      == RunG /\ \E n \in Node : Work(n)
-AGateClose == RunG /\ \E n \in Node : GateClose(n)
-AGateOpen  == RunG /\ \E n \in Node : GateOpen(n)
+AWork      == RunG /\ \E u \in Unit : Work(u)
+AGateClose == RunG /\ \E u \in Unit : GateClose(u)
+AGateOpen  == RunG /\ \E u \in Unit : GateOpen(u)
 AGarbage   == RunG /\ \E p \in sent, n \in Node, k \in GarbageKinds : DeliverGarbage(p, n, k)
 APushPull  == RunG /\ \E a, b \in Node, junk \in BOOLEAN : PushPull(a, b, junk)
-ADelete    == RunG /\ \E n \in Node : DeleteKey(n)
+ADelete    == RunG /\ \E u \in Unit : DeleteKey(u)
 ACleanup   == RunG /\ \E n \in Node : Cleanup(n)
-AArm       == RunG /\ \E n \in Node : WatcherArm(n)
-ARelease   == RunG /\ \E n \in Node : WatcherRelease(n)
+AArm       == RunG /\ \E u \in Unit : WatcherArm(u)
+ARelease   == RunG /\ \E u \in Unit : WatcherRelease(u)
 ARestart   == RunG /\ \E n \in Node : Restart(n)
 APartition == RunG /\ \E S \in SUBSET Node : Partition(S)
 AHeal      == RunG /\ Heal
@@ -594,60 +611,101 @@ Spec == Init /\ [][Next]_vars
 
 -----------------------------------------------------------------------------
 (* Behaviour generation (-simulate): the parameters of every action are drawn with RandomElement, *)
-(* so that one step costs one successor instead of the whole fan-out.                             *)
+(* so that one step costs one successor instead of the whole fan-out.  A behaviour may start with *)
+(* one of four scripts (marked in the note of its first step) and continues freely afterwards.    *)
 RE(S) == RandomElement(S)
 RunOK == phase = "run" /\ Len(hist) < RunDepth
 OpMix == <<"hb", "hb", "rm", "rm", "set">>
 MkFn(k, i, st) == IF OpMix[k] = "set" THEN [op |-> "set", i |-> i, s |-> st] ELSE [op |-> OpMix[k], i |-> i, s |-> "-"]
-(* The relay script (needs N >= 3, NI >= 2): eight forced steps after which node b, which already knows entry *)
-(* i, is handed a relayed packet that carries i AND j; b may forward only what changed (j), and the next    *)
-(* Gossip(b) shows it.  A behaviour that starts with the marked CAS follows the script, then continues       *)
-(* freely.  Without it a multi-entry relayed packet meeting a partially informed node is rare in a walk.     *)
 Hb(i) == [op |-> "hb", i |-> i, s |-> "-"]
-InRelay == Len(hist) >= 1 /\ Len(hist) < 8 /\ hist[1].note = "relay"
-RelayStart == N >= 3 /\ NI >= 2 /\ phase = "run" /\ Len(hist) = 0
-              /\ \E a \in {RE(Node)}, i \in {RE(Inst)} : CasN(a, Hb(i), "relay")
+Script(name, len) == Len(hist) >= 1 /\ Len(hist) < len /\ hist[1].note = name
+Start(cond) == cond /\ phase = "run" /\ Len(hist) = 0
+Lo(a, b) == IF a < b THEN a ELSE b
+Hi(a, b) == IF a < b THEN b ELSE a
+
+(* relay (N >= 3, NI >= 2): node b, which already knows entry i, is handed a relayed packet that carries i AND j; *)
+(* b may forward only what changed (j), and the next Gossip(b) shows it.                                          *)
+InRelay == Script("relay", 8)
+RelayStart == Start(N >= 3 /\ NI >= 2) /\ \E a \in {RE(Node)}, kk \in {RE(Key)}, i \in {RE(Inst)} : CasN(<<a, kk>>, Hb(i), "relay")
 RelayStep ==
   /\ phase = "run" /\ InRelay
   /\ LET k == Len(hist)
          a == hist[1].n
+         kk == hist[1].key
          i == hist[1].f.i
      IN CASE k = 1 -> Gossip(a)
-          [] k = 2 -> \E b \in {RE(Node \ {a})} : Deliver(Plain(hist[1].p), b, FALSE)
-          [] k = 3 -> \E j \in {RE(Inst \ {i})} : Cas(a, Hb(j))
-          [] k = 4 -> \E c \in Node \ {a, hist[3].n} : PushPull(IF a < c THEN a ELSE c, IF a < c THEN c ELSE a, FALSE)
+          [] k = 2 -> \E b \in {RE(Node \ {a})} : Deliver(Plain(kk, hist[1].p), b, FALSE)
+          [] k = 3 -> \E j \in {RE(Inst \ {i})} : Cas(<<a, kk>>, Hb(j))
+          [] k = 4 -> \E c \in Node \ {a, hist[3].n} : PushPull(Lo(a, c), Hi(a, c), FALSE)
           [] k = 5 -> \E c \in Node \ {a, hist[3].n} : Gossip(c)
-          [] k = 6 -> \E p \in {x \in sent : Cardinality(Ids(x.chg)) = 2} : Deliver(p, hist[3].n, FALSE)
+          [] k = 6 -> \E p \in {x \in sent : x.key = kk /\ Cardinality(Ids(x.chg)) = 2} : Deliver(p, hist[3].n, FALSE)
           [] k = 7 -> Gossip(hist[3].n)
-(* The reorder script (needs a gated node g and another node a): g's worker merges {i@0} and is held before its *)
-(* QueueBroadcast; a push/pull then brings {i@1}, which is merged and queued at once with a higher version; only *)
-(* then the worker queues its older change.  It must not supersede the newer one: this is where the version test  *)
-(* of Invalidates is observable.                                                                                  *)
-InReorder == Len(hist) >= 1 /\ Len(hist) < 9 /\ hist[1].note = "reorder"
-ReorderStart == GateNodes # {} /\ N >= 2 /\ MaxClock >= 1 /\ phase = "run" /\ Len(hist) = 0
-                /\ \E a \in {RE({x \in Node : GateNodes \ {x} # {}})}, i \in {RE(Inst)} : CasN(a, Hb(i), "reorder")
+
+(* reorder (a gated node g and another node a): g's worker merges {i@0} and is held before its QueueBroadcast; a   *)
+(* push/pull then brings {i@1}, which is merged and queued at once with a higher version; only then the worker     *)
+(* queues its older change.  It must not supersede the newer one: here the version test of Invalidates is visible. *)
+InReorder == Script("reorder", 9)
+ReorderStart == Start(GateNodes # {} /\ N >= 2 /\ MaxClock >= 1)
+                /\ \E a \in {RE({x \in Node : GateNodes \ {x} # {}})}, kk \in {RE(Key)}, i \in {RE(Inst)} : CasN(<<a, kk>>, Hb(i), "reorder")
 ReorderStep ==
   /\ phase = "run" /\ InReorder
   /\ LET k == Len(hist)
          a == hist[1].n
+         kk == hist[1].key
          i == hist[1].f.i
      IN CASE k = 1 -> Gossip(a)
-          [] k = 2 -> \E g \in {RE(GateNodes \ {a})} : GateClose(g)
-          [] k = 3 -> Deliver(Plain(hist[1].p), hist[3].n, FALSE)
-          [] k = 4 -> Work(hist[3].n)
+          [] k = 2 -> \E g \in {RE(GateNodes \ {a})} : GateClose(<<g, kk>>)
+          [] k = 3 -> Deliver(Plain(kk, hist[1].p), hist[3].n, FALSE)
+          [] k = 4 -> Work(<<hist[3].n, kk>>)
           [] k = 5 -> Tick
-          [] k = 6 -> Cas(a, Hb(i))
-          [] k = 7 -> LET g == hist[3].n IN PushPull(IF a < g THEN a ELSE g, IF a < g THEN g ELSE a, FALSE)
-          [] k = 8 -> Work(hist[3].n)
-Free == RunOK /\ ~InRelay /\ ~InReorder
+          [] k = 6 -> Cas(<<a, kk>>, Hb(i))
+          [] k = 7 -> PushPull(Lo(a, hist[3].n), Hi(a, hist[3].n), FALSE)
+          [] k = 8 -> Work(<<hist[3].n, kk>>)
+
+(* tie (N >= 2, MaxClock >= 1): an entry gets live content s (any live state) at second 1 and is removed in the same *)
+(* second.  Replica b receives the live copy first and then the tombstone: it must accept the tombstone whatever  *)
+(* the state of its live copy.  Replica c (if N >= 3) receives the tombstone first: the live copy must not come   *)
+(* back.  One behaviour per key x entry id x live content class covers both delivery orders.                      *)
+TieLen == IF N >= 3 THEN 10 ELSE 8
+InTie == Script("tie", TieLen)
+TieStart == Start(N >= 2 /\ MaxClock >= 1)
+            /\ \E a \in {RE(Node)}, kk \in {RE(Key)}, i \in {RE(Inst)} : CasN(<<a, kk>>, Hb(i), "tie")
+TieStep ==
+  /\ phase = "run" /\ InTie
+  /\ LET k == Len(hist)
+         a == hist[1].n
+         kk == hist[1].key
+         i == hist[1].f.i
+         live == {x \in sent : x.key = kk /\ x.chg[i].ts = 1 /\ x.chg[i].st # LEFT}
+         tomb == {x \in sent : x.key = kk /\ x.chg[i].ts = 1 /\ x.chg[i].st = LEFT}
+     IN CASE k = 1 -> Tick
+          [] k = 2 -> \E s \in {RE(LiveStates)} : Cas(<<a, kk>>, [op |-> "set", i |-> i, s |-> s])
+          [] k = 3 -> Gossip(a)
+          [] k = 4 -> Cas(<<a, kk>>, [op |-> "rm", i |-> i, s |-> "-"])
+          [] k = 5 -> Gossip(a)
+          [] k = 6 -> \E b \in {RE(Node \ {a})}, p \in live : Deliver(p, b, FALSE)
+          [] k = 7 -> \E p \in tomb : Deliver(p, hist[7].n, FALSE)
+          [] k = 8 -> \E c \in Node \ {a, hist[7].n}, p \in tomb : Deliver(p, c, FALSE)
+          [] k = 9 -> \E p \in live : Deliver(p, hist[9].n, FALSE)
+
+(* xkey (NK >= 2): two keys of one node are written with the same entry id (the same content name) one after the *)
+(* other; both updates must stay queued - a broadcast supersedes only broadcasts of its own key.                  *)
+InXKey == Script("xkey", 3)
+XKeyStart == Start(NK >= 2) /\ \E a \in {RE(Node)}, kk \in {RE(Key)}, i \in {RE(Inst)} : CasN(<<a, kk>>, Hb(i), "xkey")
+XKeyStep ==
+  /\ phase = "run" /\ InXKey
+  /\ LET k == Len(hist)
+         a == hist[1].n
+     IN CASE k = 1 -> \E k2 \in {RE(Key \ {hist[1].key})} : Cas(<<a, k2>>, Hb(hist[1].f.i))
+          [] k = 2 -> Gossip(a)
+
+Free == RunOK /\ ~InRelay /\ ~InReorder /\ ~InTie /\ ~InXKey
+GU == GateNodes \X Key
 SimNext ==
-  \/ RelayStart
-  \/ RelayStart
-  \/ RelayStart
-  \/ RelayStep
-  \/ ReorderStart
-  \/ ReorderStart
-  \/ ReorderStep
+  \/ RelayStart \/ RelayStart \/ RelayStep
+  \/ ReorderStart \/ ReorderStep
+  \/ TieStart \/ TieStart \/ TieStart \/ TieStart \/ TieStep
+  \/ XKeyStart \/ XKeyStart \/ XKeyStep
   \/ Free /\ Tick
   \/ Free /\ sent # {} /\ \E p \in {RE(sent)}, n \in {RE(Node)} : Deliver(p, n, FALSE)
   \/ Free /\ sent # {} /\ \E p \in {RE(sent)}, n \in {RE(Node)} : Deliver(p, n, FALSE)
@@ -656,135 +714,137 @@ SimNext ==
   \/ Free /\ sent # {} /\ \E p \in {RE(sent)}, n \in {RE(Node)}, k \in {RE(GarbageKinds)} : DeliverGarbage(p, n, k)
   \/ Free /\ \E n \in {RE(Node)} : Gossip(n)
   \/ Free /\ \E n \in {RE(Node)} : Gossip(n)
-  \/ Free /\ \E n \in {RE(Node)}, k \in {RE(1..Len(OpMix))}, i \in {RE(Inst)}, st \in {RE(LiveStates)} : Cas(n, MkFn(k, i, st))
-  \/ Free /\ \E n \in {RE(Node)}, k \in {RE(1..Len(OpMix))}, i \in {RE(Inst)}, st \in {RE(LiveStates)} : Cas(n, MkFn(k, i, st))
+  \/ Free /\ \E u \in {RE(Unit)}, k \in {RE(1..Len(OpMix))}, i \in {RE(Inst)}, st \in {RE(LiveStates)} : Cas(u, MkFn(k, i, st))
+  \/ Free /\ \E u \in {RE(Unit)}, k \in {RE(1..Len(OpMix))}, i \in {RE(Inst)}, st \in {RE(LiveStates)} : Cas(u, MkFn(k, i, st))
   \/ Free /\ \E pr \in {RE({x \in Node \X Node : x[1] < x[2]})} : PushPull(pr[1], pr[2], FALSE)
   \/ Free /\ \E pr \in {RE({x \in Node \X Node : x[1] < x[2]})} : PushPull(pr[1], pr[2], TRUE)
-  \/ Free /\ \E n \in {RE(Node)} : WatcherArm(n) \/ WatcherRelease(n)
+  \/ Free /\ \E u \in {RE(Unit)} : WatcherArm(u) \/ WatcherRelease(u)
   \/ Free /\ \E n \in {RE(Node)} : Restart(n)
   \/ Free /\ \E S \in {RE((SUBSET Node) \ {{}, Node})} : Partition(S)
   \/ Free /\ Heal
-  \/ Free /\ GateNodes # {} /\ \E n \in {RE(GateNodes)} : GateClose(n)
-  \/ Free /\ GateNodes # {} /\ RE(1..3) = 1 /\ \E n \in {RE(GateNodes)} : GateOpen(n)
-  \/ Free /\ GateNodes # {} /\ sent # {} /\ \E p \in {RE(sent)}, n \in {RE(GateNodes)} : gate[n] /\ Deliver(p, n, FALSE)
-  \/ Free /\ GateNodes # {} /\ \E n \in {RE(GateNodes)} : Work(n)
-  \/ Free /\ GateNodes # {} /\ \E n \in {RE(GateNodes)} : Work(n)
-  \/ Free /\ \E n \in {RE(Node)} : DeleteKey(n)
-  \/ Free /\ \E n \in {RE(Node)} : store[n].del /\ Cleanup(n)
-  \/ Free /\ \E n \in {RE(Node)} : store[n].del /\ Cleanup(n)
+  \/ Free /\ GU # {} /\ \E u \in {RE(GU)} : GateClose(u)
+  \/ Free /\ GU # {} /\ RE(1..3) = 1 /\ \E u \in {RE(GU)} : GateOpen(u)
+  \/ Free /\ GU # {} /\ sent # {} /\ \E p \in {RE(sent)}, n \in {RE(GateNodes)} : gate[<<n, p.key>>] /\ Deliver(p, n, FALSE)
+  \/ Free /\ GU # {} /\ \E u \in {RE(GU)} : Work(u)
+  \/ Free /\ GU # {} /\ \E u \in {RE(GU)} : Work(u)
+  \/ Free /\ \E u \in {RE(Unit)} : DeleteKey(u)
+  \/ Free /\ \E n \in {RE(Node)} : (\E u \in UnitsOf(n) : store[u].del) /\ Cleanup(n)
+  \/ Free /\ \E n \in {RE(Node)} : (\E u \in UnitsOf(n) : store[u].del) /\ Cleanup(n)
   \/ StartQuiesce
   \/ QStep
 SimSpec == Init /\ [][SimNext]_vars
 
 -----------------------------------------------------------------------------
 (* Invariants and action properties *)
-QEntry(b) == /\ b.chg \in Desc /\ b.left \in 1..T /\ b.ver \in Nat /\ b.ver >= 1
+QEntry(b) == /\ b.key \in Key /\ b.chg \in Desc /\ b.left \in 1..T /\ b.ver \in Nat /\ b.ver >= 1
              /\ b.del \in BOOLEAN /\ b.upd \in -1..MaxClock
 TypeOK ==
   /\ clock \in 0..MaxClock
-  /\ \A n \in Node : /\ store[n].val \in Desc /\ store[n].ver \in Nat
-                     /\ store[n].del \in BOOLEAN /\ store[n].upd \in -1..MaxClock
-                     /\ (store[n].ver = 0) => store[n] = C0
-                     /\ (~store[n].del) => store[n].upd = -1
-  /\ \A p \in sent : p.chg \in Desc /\ p.del \in BOOLEAN
+  /\ \A u \in Unit : /\ store[u].val \in Desc /\ store[u].ver \in Nat
+                     /\ store[u].del \in BOOLEAN /\ store[u].upd \in -1..MaxClock
+                     /\ (store[u].ver = 0) => store[u] = C0
+                     /\ (~store[u].del) => store[u].upd = -1
+  /\ \A p \in sent : p.key \in Key /\ p.chg \in Desc /\ p.del \in BOOLEAN
   /\ \A n \in Node : \A b \in queueL[n] \cup queueG[n] : QEntry(b) /\ (Ids(b.chg) # {} \/ b.del)
-  /\ \A n \in Node : /\ wk[n].st \in {"idle", "dec", "enc"}
-                     /\ Len(inbox[n]) <= InboxCap
-                     /\ (wk[n].st # "idle") => gate[n]            \* a worker is only ever held behind a closed gate
-                     /\ (wk[n].st = "idle") => inbox[n] = <<>>   \* and an idle worker has an empty channel
-                     /\ gate[n] => n \in GateNodes
+  /\ \A u \in Unit : /\ wk[u].st \in {"idle", "dec", "enc"}
+                     /\ Len(inbox[u]) <= InboxCap
+                     /\ (wk[u].st # "idle") => gate[u]            \* a worker is only ever held behind a closed gate
+                     /\ (wk[u].st = "idle") => inbox[u] = <<>>   \* and an idle worker has an empty channel
+                     /\ gate[u] => Nd(u) \in GateNodes
 
-Tomb(n, i)  == store[n].val[i].st = LEFT
-Alive(n, i) == store[n].val[i] # Absent /\ ~Tomb(n, i)
+Tomb(u, i)  == store[u].val[i].st = LEFT
+Alive(u, i) == store[u].val[i] # Absent /\ ~Tomb(u, i)
+QueuesOf(u) == {b \in queueL[Nd(u)] \cup queueG[Nd(u)] : b.key = Ky(u)}
 
 (* C04 *)
 TombstonesInvisible ==
-  \A n \in Node : NoLeft(Read(n)) /\ NoLeft(watch[n].last) /\ NoLeft(pw[n].last)
+  \A u \in Unit : NoLeft(Read(u)) /\ NoLeft(watch[u].last) /\ NoLeft(pw[u].last)
 
 (* Tokens are not state of the specification: a live entry carries its id's own tokens, a tombstone carries *)
 (* none; the projection of the harness checks exactly that on the code.                                      *)
 
-TombstonesForwardedStep ==     \* a step that creates or renews a tombstone on n queues a broadcast that carries it
-  \A n \in Node, i \in Inst :    \* (a gated worker holds it until its QueueBroadcast step)
-     (store'[n].val[i].st = LEFT /\ store'[n].val[i] # store[n].val[i])
-       => \/ \E b \in queueL'[n] \cup queueG'[n] : b.chg[i] = store'[n].val[i] /\ b.left = T
-          \/ wk'[n].st = "enc" /\ wk'[n].m.chg[i] = store'[n].val[i]
+TombstonesForwardedStep ==     \* a step that creates or renews a tombstone on u queues a broadcast of u's key that carries it
+  \A u \in Unit, i \in Inst :    \* (a gated worker holds it until its QueueBroadcast step)
+     (store'[u].val[i].st = LEFT /\ store'[u].val[i] # store[u].val[i])
+       => \/ \E b \in queueL'[Nd(u)] \cup queueG'[Nd(u)] : b.key = Ky(u) /\ b.chg[i] = store'[u].val[i] /\ b.left = T
+          \/ wk'[u].st = "enc" /\ wk'[u].m.chg[i] = store'[u].val[i]
 TombstonesForwarded == [][TombstonesForwardedStep]_vars
-(* LocalState carries the tombstones: PushPull hands store[n].val (tombstones included) to the peer, and *)
-(* the harness reads store[n].val of the real node out of the very bytes LocalState returns.            *)
+(* LocalState carries the tombstones: PushPull hands store[u].val (tombstones included) to the peer, and *)
+(* the harness reads store[u].val of the real node out of the very bytes LocalState returns.            *)
 
 NoResurrectionStep ==   \* while a tombstone is in the store nothing that is not strictly newer replaces it
-  \A n \in Node, i \in Inst :
-     (Tomb(n, i) /\ store'[n].ver # 0 /\ store'[n].val[i] # Absent /\ store'[n].val[i].st # LEFT)
-        => store'[n].val[i].ts > store[n].val[i].ts
+  \A u \in Unit, i \in Inst :
+     (Tomb(u, i) /\ store'[u].ver # 0 /\ store'[u].val[i] # Absent /\ store'[u].val[i].st # LEFT)
+        => store'[u].val[i].ts > store[u].val[i].ts
 NoResurrection == [][NoResurrectionStep]_vars
 
 GCOnlyExpiredStep ==    \* a tombstone disappears from a running node only by expiry
-  \A n \in Node, i \in Inst :
-     (Tomb(n, i) /\ store'[n].ver # 0 /\ store'[n].val[i] = Absent) => Expired(store[n].val[i], clock)
+  \A u \in Unit, i \in Inst :
+     (Tomb(u, i) /\ store'[u].ver # 0 /\ store'[u].val[i] = Absent) => Expired(store[u].val[i], clock)
 GCOnlyExpired == [][GCOnlyExpiredStep]_vars
 
 NoExpiredTombstoneStored ==   \* what a changing merge leaves behind contains no expired tombstone
-  [][\A n \in Node : store'[n] # store[n] => \A i \in Inst : ~Expired(store'[n].val[i], clock')]_vars
+  [][\A u \in Unit : store'[u] # store[u] => \A i \in Inst : ~Expired(store'[u].val[i], clock')]_vars
 
 (* key-level tombstone (KV.Delete) *)
 DeletedStaysDeletedStep ==    \* nothing - no older update, no newer one, no CAS - clears the Deleted flag while the key is kept
-  \A n \in Node : (store[n].del /\ store'[n].ver # 0) => (store'[n].del /\ store'[n].upd >= store[n].upd)
+  \A u \in Unit : (store[u].del /\ store'[u].ver # 0) => (store'[u].del /\ store'[u].upd >= store[u].upd)
 DeletedStaysDeleted == [][DeletedStaysDeletedStep]_vars
 RemovedOnlyWhenObsoleteStep ==   \* a deleted key leaves a running node only after ObsoleteTimeout (checked where nodes do not restart)
-  AllowRestart \/ \A n \in Node : (store[n].ver # 0 /\ store'[n].ver = 0) => Obsolete(store[n], clock)
+  AllowRestart \/ \A u \in Unit : (store[u].ver # 0 /\ store'[u].ver = 0) => Obsolete(store[u], clock)
 RemovedOnlyWhenObsolete == [][RemovedOnlyWhenObsoleteStep]_vars
 DeletedNotRevivedStep ==      \* a node that does not hold the key never creates it from a message that says "deleted"
-  \A n \in Node : (store[n].ver = 0 /\ store'[n].ver # 0) => ~store'[n].del
+  \A u \in Unit : (store[u].ver = 0 /\ store'[u].ver # 0) => ~store'[u].del
 DeletedNotRevived == [][DeletedNotRevivedStep]_vars
 
 (* C06 *)
 RR(s, c) == Merge(s, c, FALSE, 0).result
 Contains(b, o) == \A s \in Desc : RR(RR(s, o), b) = RR(s, b)
-(* a queued update is superseded only by an update that contains it - up to tombstones that are older  *)
-(* than the retention, which every receiver would collect on arrival anyway; and up to broadcasts of a *)
-(* key deletion that is itself obsolete (after Cleanup a node's versions restart from 1, so such a     *)
-(* left-over broadcast can be superseded by an older update: observation O4)                           *)
-InvalidationSafe == \A x \in inval : (x.od /\ (clock - x.ou > ObsoleteTimeout)) \/ Contains(x.b, GCd(x.o, clock))
+(* a queued update is superseded only by an update OF THE SAME KEY that contains it - up to tombstones that are   *)
+(* older than the retention, which every receiver would collect on arrival anyway; and up to broadcasts of a key *)
+(* deletion that is itself obsolete (after Cleanup a node's versions restart from 1, so such a left-over         *)
+(* broadcast can be superseded by an older update: observation O4)                                               *)
+InvalidationSafe == \A x \in inval : /\ x.ok = x.bk
+                                     /\ (x.od /\ (clock - x.ou > ObsoleteTimeout)) \/ Contains(x.b, GCd(x.o, clock))
 
 OnlyChangesForwardedStep ==   \* the change a merge hands on is exactly what changed in the store, as it is now in the store
   \A x \in fwd' :
-     \/ store'[x.n].del       \* the whole value travels with the Deleted flag
-     \/ /\ \A i \in Ids(x.chg) : x.chg[i] = store'[x.n].val[i] /\ x.chg[i] # store[x.n].val[i]
-        /\ \A i \in Inst \ Ids(x.chg) : \/ store'[x.n].val[i] = store[x.n].val[i]
-                                         \/ store'[x.n].val[i] = Absent   \* collected, or killed by an expired tombstone
+     \/ store'[x.u].del       \* the whole value travels with the Deleted flag
+     \/ /\ \A i \in Ids(x.chg) : x.chg[i] = store'[x.u].val[i] /\ x.chg[i] # store[x.u].val[i]
+        /\ \A i \in Inst \ Ids(x.chg) : \/ store'[x.u].val[i] = store[x.u].val[i]
+                                         \/ store'[x.u].val[i] = Absent   \* collected, or killed by an expired tombstone
 OnlyChangesForwarded == [][OnlyChangesForwardedStep]_vars
 
 NoInventedContent ==
-  \A n \in Node, i \in Inst : store[n].val[i] # Absent => <<i, store[n].val[i]>> \in written
+  \A u \in Unit, i \in Inst : store[u].val[i] # Absent => <<Ky(u), i, store[u].val[i]>> \in written
 SentIsWritten ==
-  \A p \in sent : \A i \in Ids(p.chg) : <<i, p.chg[i]>> \in written
+  \A p \in sent : \A i \in Ids(p.chg) : <<p.key, i, p.chg[i]>> \in written
 
 (* a watcher that is not blocked in its callback has seen the value readers see - except that the removal *)
 (* of an obsolete deleted key (Cleanup) is not announced (observation O3)                                  *)
 WatcherNeverStale ==
-  \A n \in WatchNodes :
-     \/ watch[n].held /\ watch[n].pending
-     \/ IF store[n].ver = 0 THEN (~watch[n].called \/ MaxDel > 0) ELSE watch[n].called /\ watch[n].last = Read(n)
+  \A u \in Unit : Nd(u) \in WatchNodes =>
+     \/ watch[u].held /\ watch[u].pending
+     \/ IF store[u].ver = 0 THEN (~watch[u].called \/ MaxDel > 0) ELSE watch[u].called /\ watch[u].last = Read(u)
 PrefixWatcherNeverStale ==
-  \A n \in Node : IF store[n].ver = 0 THEN (~pw[n].called \/ MaxDel > 0) ELSE pw[n].called /\ pw[n].last = Read(n)
+  \A u \in Unit : IF store[u].ver = 0 THEN (~pw[u].called \/ MaxDel > 0) ELSE pw[u].called /\ pw[u].last = Read(u)
 
 VersionCountsChanges ==     \* (after a Cleanup versions restart from 1 while older broadcasts are still queued)
-  MaxDel > 0 \/ \A n \in Node : \A b \in queueL[n] \cup queueG[n] : b.ver <= store[n].ver
+  MaxDel > 0 \/ \A u \in Unit : \A b \in QueuesOf(u) : b.ver <= store[u].ver
 
 (* convergence: what readers see, a deleted key counting as gone *)
-Vis(n) == IF store[n].del THEN Empty ELSE Read(n)
-Converged == \A a, b \in Node : Vis(a) = Vis(b)
-WatchersCaughtUp == \A n \in WatchNodes : ~watch[n].held /\ (store[n].ver # 0 => watch[n].called /\ watch[n].last = Read(n))
-WorkersIdle == \A n \in Node : wk[n].st = "idle" /\ ~gate[n]
+Vis(u) == IF store[u].del THEN Empty ELSE Read(u)
+Converged == \A k \in Key : \A a, b \in Node : Vis(<<a, k>>) = Vis(<<b, k>>)
+WatchersCaughtUp == \A u \in Unit : Nd(u) \in WatchNodes => (~watch[u].held /\ (store[u].ver # 0 => watch[u].called /\ watch[u].last = Read(u)))
+WorkersIdle == \A u \in Unit : wk[u].st = "idle" /\ ~gate[u]
 QuiescentOK == phase = "done" => Converged /\ WatchersCaughtUp /\ WorkersIdle
 
 Healed == cut = {}
 Fairness == /\ \A a, b \in Node : WF_vars(PushPull(a, b, FALSE))
-            /\ \A n \in Node : WF_vars(WatcherRelease(n))
+            /\ \A u \in Unit : WF_vars(WatcherRelease(u))
 FairSpec == Spec /\ Fairness
 Convergence == (<>[]Healed) => <>[](Converged /\ WatchersCaughtUp)
 
 (* behaviour emission (simulation): one JSON line per finished behaviour *)
-EmitDone == phase = "done" => PrintT(ToJson([hist |-> hist, final |-> Vis(1)]))
+EmitDone == phase = "done" => PrintT(ToJson([hist |-> hist, final |-> [k \in Key |-> Vis(<<1, k>>)]]))
 =============================================================================
